@@ -218,11 +218,13 @@ func (rl *Shell) historySearchBackward() {
 // The search string may match anywhere in a history line.
 // This is a non-incremental search.
 func (rl *Shell) historySubstringSearchForward() {
+	rl.History.Save()
+
 	usePos := true
 	forward := true
 	regexp := true
 
-	rl.History.InsertMatch(rl.line, rl.cursor, usePos, forward, regexp)
+	rl.History.InsertMatch(nil, nil, usePos, forward, regexp)
 }
 
 // Search backward through the history for the string of characters
@@ -230,11 +232,13 @@ func (rl *Shell) historySubstringSearchForward() {
 // The search string may match anywhere in a history line.
 // This is a non-incremental search.
 func (rl *Shell) historySubstringSearchBackward() {
+	rl.History.Save()
+
 	usePos := true
 	forward := false
 	regexp := true
 
-	rl.History.InsertMatch(rl.line, rl.cursor, usePos, forward, regexp)
+	rl.History.InsertMatch(nil, nil, usePos, forward, regexp)
 }
 
 // Insert the last argument to the previous command (the last
